@@ -1191,6 +1191,13 @@ def flat_space(tier: str, seed: int = 0) -> list:
             (("switch", ((False, (PE, ("break",))), (False, (Q, ("break",))), (True, (PE, ("break",))))), Q) + _T,
         ]
     fams.append(Family("flat-context-around-ending-op", Lit(*ending), no_cross))
+    # LONG routines (what the exhaustive families cannot reach): an `||` header and an if chain behind ~300 plain statements (graph
+    # vertex numbers beyond the small-integer range), and an if followed by many switches (deep walks of the structuring passes)
+    long_blocks = [
+        tuple(Q for _ in range(300)) + (("if", ((False, 2, (Q,)),), (Q,)), ("if", ((True, 3, (Q, Q)), (False, 1, ())), None)) + _T,
+        (("if", ((False, 1, (Q,)),), None),) + tuple(("switch", tuple((False, (Q, Q, ("break",))) for _ in range(8))) for _ in range(70)) + _T,
+    ]
+    fams.append(Family("flat-long", Lit(*long_blocks), no_cross))
     # seeded random flat programs
     n_random = t["random"]
     fams.append(
